@@ -63,6 +63,7 @@ type event struct {
 	lists map[string][]rule
 	items []repItem
 	tk    string // tx|rx
+	rts   int    // assoc: offset of the peer's Recovery Time Stamp (0 = the usual one; a restarted peer comes with another)
 	fired bool   // srrsp: the request's retransmission timer has already fired when the response is processed
 }
 
@@ -157,6 +158,9 @@ func (e *event) render() string {
 			fmt.Fprintf(&b, " seq=%d", e.seq)
 		case "assoc":
 			fmt.Fprintf(&b, " seq=%d node=%s", e.seq, dashIfEmpty(e.node))
+			if e.rts != 0 {
+				fmt.Fprintf(&b, " rts=%d", e.rts)
+			}
 		case "est":
 			cp := "-"
 			if e.cp != nil {
@@ -248,6 +252,7 @@ func parseEvent(line string) (*event, error) {
 		}
 		e.mtype = int(u64("type", 10))
 		e.fired = m["fired"] == "1"
+		e.rts = int(u64("rts", 10))
 		if h, ok := m["hex"]; ok && h != "-" {
 			e.raw, _ = hex.DecodeString(h)
 		}
